@@ -819,6 +819,10 @@ def _mem_scenarios(quick, seed):
         tgt = dumps.base_target(2, file_maps=[{"path": core.TARGET, "off": 0, "len": 0x2000, "exec": True, "guard_after": 1 + k % 2}])
         w = {"blamed": {"slot": 0}, "crash_context": {"sp": {"thread_sp": 0}, "ip": {"file_map": 0, "off": 0x2000 + off}}}
         scns.append({"id": f"mem/ip-before-reservation/{off}", "target": tgt, "writer": w})
+    # the crash IP in a page mapped at address 0 (fewer bytes before it than half the window): the window starts at 0
+    for off in (0, 16, 127, 128, 4000):
+        tgt = dumps.base_target(2, regions=[{"name": "zero", "page_zero": True, "exec": True}])
+        scns.append({"id": f"mem/ip-in-page-zero/{off}", "target": tgt, "writer": {"blamed": {"slot": 0}, "crash_context": {"sp": {"thread_sp": 0}, "ip": hex(off) if off else 0}}})
     # application regions that lie inside a dumped thread stack (a buffer in a live frame), with and without sanitising:
     # the region must still be the target's bytes (the stack copy next to it may have been rewritten)
     for k, san in enumerate([True, False]):
